@@ -4,48 +4,69 @@ Part 1 (case kind 'history'): one long-lived ("warmed") thermodynamics object of
 BinaryThermodynamics / MulticomponentThermodynamics receives a random history of 20-60 public queries
 (driving force, interfacial composition, curvature factor, growth+interfacial composition, impingement
 factor, interdiffusivity, tracer diffusivity) with temperature jumps of +-1..200 K, precipitate / diffusion
-phase switches, removeCache flags, scalar and array argument forms, batches and repeated points.  Every
-query is re-evaluated
+phase switches, removeCache flags, scalar / list / array argument forms, batches and repeated points.  Systems:
+Al-Zr (binary), Ni-Al-Cr (FCC_L12 and BCC_A2 precipitates), Fe-Cr-Ni (BCC_A2 and SIGMA; FCC_A1 / BCC_A2 diffusion);
+the driving-force method (tangent, approximate, sampling, curvature) and the binary interfacial method are fixed
+per history.  Every query is re-evaluated
   * on a second object of the same configuration whose caches were discarded with clearCache() just before
     ("cleared"), and
-  * on a brand-new object (always for curvature-type queries - clearCache() does not reset
-    _curvature_outputs - and for a random 30 % of the others).
+  * on a brand-new object (freshly parsed database; always for curvature-type queries - clearCache() does not
+    reset _curvature_outputs - and for a random 30 % of the others).
 Monitors
-  warm_vs_fresh    warmed result == fresh result (brand-new if available, else cleared), per returned array,
-                   max|a-b| / max|b| <= TOL_A (1e-6: solver-deterministic quantities) or TOL_B (2e-2: quantities
-                   derived from a two-phase equilibrium that is global on a fresh object and local on a
-                   warmed one: curvature factor, growth, impingement, driving-force methods 'approximate'
-                   and 'curvature'); a warmed object that raises / returns nothing where the fresh one returns a
-                   result is a violation as well
+  warm_vs_fresh    warmed result == fresh result (brand-new if built, else cleared), per returned array:
+                   max|a-b| / max|b| <= TOL_A = 1e-6 for queries that never touch a cached two-phase equilibrium,
+                   TOL_B = 1e-5 for those that do (curvature factor, growth, impingement, driving-force methods
+                   'approximate' and 'curvature': global equilibrium on a fresh object, cached local one on a warmed
+                   object).  A warmed object that raises / returns nothing where the fresh one returns a result is a
+                   violation as well.
   cleared_vs_new   cleared result == brand-new result (cached equilibria kept or discarded change nothing)
   batch_vs_single  row i of an array call on the warmed object == the single call for point i on a fresh object
-  repeat_vs_first  a query repeated later in the history (fresh argument arrays, same values) == its first
-                   answer on the same warmed object
+  repeat_vs_first  a query repeated immediately or later in the history (fresh argument arrays, same values) == its
+                   first answer on the same warmed object
   args_intact      every ndarray / list passed to a query is bit-identical afterwards
   no_alias         no returned array shares memory with an argument array
-Domain ("stable range"): a point is compared only if the fresh object (brand-new when built, else cleared)
-returns a finite result there; other points are counted (outside_stable_range) and skipped, because outside it
-the warmed object may legitimately answer with its previous values (documented fallback, property C03).
+Tolerances (guide section 2, measured on the repaired tree, quick tier, seeds 0,1,2,3,7): class A worst 1.2e-8, class B
+worst 2.3e-7; both constants are >= 30 x these and >= 10 x below every seeded break (stale temperature, stale sample
+points, phase-less diffusivity cache: 1e-2 .. 1e+3) and below the defects found on the unchanged tree (4e-5 .. 1e+4).
+A failing comparison carries the structural facts used by the classifier: system, query, precipitate phase,
+driving-force method, tolerance class, whether the warmed object's cached two-phase sets had already lost a phase
+(cache_lost_phase), size = small (<= 5e-2) / large.
+
+Domain ("stable range"), decided at run time, rejects are counted and skipped:
+  * phase_not_stable: the phase the query refers to (matrix; diffusion phase) must be present with exactly one
+    composition set in the global equilibrium of all listed phases at (x, T) (helper object, never compared);
+  * outside_stable_range: the fresh object must return a finite result (outside it the warmed object may answer with
+    its previous values by documented design - that fallback belongs to C03);
+  * outside_two_phase_window: curvature-type queries (and 'approximate' / 'curvature' driving force) are compared only
+    where the fresh object finds the two-phase equilibrium at x itself; if it had to use the documented approximation
+    (_searchForTwoPhaseEq along searchDir, or the sampling fallback) the point is skipped.
 -1 entries of the interfacial-composition queries (precipitate unstable) are regular results.
 
 Part 2 (case kinds 'hashtable', 'singlephase', 'mobility'): the composition cache (HashTable) of the diffusion
 models, observed directly, through SinglePhaseModel (counting stub backend, values that encode the call id)
 and through computeMobility (real Fe-Cr-Ni backend with a counting wrapper around getEq).
   cache_off        after enableCaching(False) / useCache(False) retrieveFromHashTable never returns a value
-  backend_calls    with caching off the backend is called exactly once per node and flux evaluation / once per
-                   point
+  backend_calls    with caching off the backend is called exactly once per node and flux evaluation (getFluxes, and
+                   every Euler / RK4 stage inside solve) / once per point of computeMobility
   cache_sound      a value returned by the cache was stored for arguments that agree with the query to within
                    10^-s in every composition and in temperature (s = configured digits, 1..8) - a necessary
-                   condition for any rounding or truncation key; near-boundary pairs, far temperature pairs,
-                   permuted compositions, sensitivity changes and clearCache are part of the operation histories
-                   (shadow dictionary id -> stored arguments)
+                   condition for any rounding or truncation key (1e-3 relative slack for the rounding of x*10^s);
+                   near-boundary pairs, far temperature pairs, permuted compositions, sensitivity changes and
+                   clearCache are part of the operation histories (shadow dictionary id -> stored arguments)
 
 Not asserted (statement silent): that a cache hit occurs for equal keys (only counted, so that soundness is not
 vacuous); what happens to values stored while caching was off; aliasing between returned arrays and the
 object's internal caches; behaviour for inadmissible arguments (negative compositions, T outside 300-2000 K).
 Relative differences are taken per returned array relative to that array's own scale; a scalar driving force
-uses max(|dg|, 1 J/mol) as its scale (1 J/mol is the library's own 'small' energy offset gOffset; driving forces
-of a fraction of a J/mol are below what the equilibrium solver resolves).
+uses max(|dg|, 1 J/mol) as its scale (1 J/mol is the library's own 'small' energy offset gOffset).
+
+Defects found on the unchanged tree (reproducers / diffs in /verif/proposed_fixes/C09-*): binary interfacial
+composition adds gOffset to the caller's array; cache cannot be switched off; int32 key overflow for 7-8 digits;
+cached two-phase composition sets that lost a phase are never recovered (stale curvature/growth answers); the cached
+equilibrium omits the 1 J/mol precipitate offset of the uncached one (what the design phase took for solver noise of
+5e-4); tangent driving force of a warmed object lands on another parallel-tangent solution (Ni-Al-Cr, no small fix).
+The design's break "do not refresh state variables of cached composition sets" has no observable effect with the
+installed pycalphad (its solver refreshes them itself); the effective variant (cached temperature kept) is caught.
 """
 import math
 
@@ -90,7 +111,9 @@ ASSUMPTIONS = ['"for all histories / compositions / temperatures" is sampled: ra
                'of the three shipped databases; the stable range is decided at run time by the fresh object itself',
                'the brand-new object (same constructor arguments, freshly parsed database) is the reference for "no history"; for 70 % of the '
                'non-curvature queries the clearCache()-ed object stands in for it (their equivalence is itself monitored on the other 30 %)',
-               'differences below the equilibrium solver noise floor (TOL_A 1e-6, TOL_B 2e-2 relative to the array scale) are not attributed',
+               'differences below TOL_A = 1e-6 / TOL_B = 1e-5 (relative to the scale of the returned array) are not attributed',
+               'stable range = the queried phase is part of the global equilibrium of the listed phases, the fresh object returns a finite result, '
+               'and (two-phase quantities) it finds the two-phase equilibrium at the queried composition itself',
                'cache soundness is the necessary condition |dx_i| < 10^-s, |dT| < 10^-s (with 1e-3 relative slack for the rounding of x*10^s)']
 
 # tolerance constants: >= 30 x the worst residual seen on the repaired tree over seeds 0,1,2,3,7 (quick tier), see report
@@ -1063,7 +1086,7 @@ MANIFEST = {
             'compared per returned array; argument arrays are compared bitwise before/after and checked for aliasing with results. The '
             'composition cache of the diffusion models is driven with operation histories (digits 1..8, on/off, near-boundary pairs) directly, '
             'through SinglePhaseModel with a counting stub backend and through computeMobility, against a shadow dictionary.',
-    'note': 'trusted: pycalphad; a brand-new object as the history-free reference; noise-floor tolerances 1e-6 / 2e-2 relative to the array scale; '
+    'note': 'trusted: pycalphad; a brand-new object as the history-free reference; noise-floor tolerances 1e-6 / 1e-5 relative to the array scale; '
             'sampled histories, not all histories',
     'technique': 'differential / metamorphic runtime monitor over paired executions (warmed vs fresh object) and a shadow-model history monitor for the cache',
 }
